@@ -205,12 +205,12 @@ pub fn run(rep: &mut Report, cli: &Cli) {
     let depth = if th { 5 } else { 4 };
     let o = e2::explore(rep, "settle_builder_fee histories", &sm, starts, &e2::Config { depth, max_states: 3_000_000 }, json!({"machine": "settlement"}));
     for k in ["Settle:ok", "SettleWrongBuilder:err", "SettleNoBuilder:ok", "SettleNoBuilder:err"] {
-        if o.histogram.get(k).copied().unwrap_or(0) == 0 {
+        if o.histogram.get(k).copied().unwrap_or(0) == 0 && rep.violations_total() == 0 {
             rep.machinery(format!("vacuous settlement exploration: outcome {k} never occurred"));
         }
     }
     for k in ["settlements_of_a_non_zero_record", "repeated_settlement_was_a_no_op"] {
-        if o.counters.get(k).copied().unwrap_or(0) == 0 {
+        if o.counters.get(k).copied().unwrap_or(0) == 0 && rep.violations_total() == 0 {
             rep.machinery(format!("vacuous settlement exploration: {k} never occurred"));
         }
     }
